@@ -3,4 +3,4 @@ import gadgets
 
 
 def run(tier):
-    return gadgets.standard("C14", tier, mc=["fixed"], weak=["weak_norange"], scen=["fixed"])
+    return gadgets.standard("C14", tier, mc=["fixed"], weak=["weak_norange"], scen=["fixed", "fixed-digits"])
